@@ -1,9 +1,11 @@
 (* eng_roller.ml — line driver for the rolling-file model (coq/Log/Roller.v).
    engine exe: modelrun_roller
-   case:   <gran> <maxsize|-> <retained|-> <maxuncompressed|-> <prefix> <fsuffix|_> <csuffix|_> <p0> <off0>
+   case:   <gran> <maxsize|-> <retained|-> <maxuncompressed|-> <prefix> <fsuffix|_> <csuffix|_> <p0> <off0> <foreign|->
+           foreign = comma list of <kind>:<period>:<seq> (kind t|x|d: sibling-appender files) or u (unrelated file),
+           pre-created before the appender starts; file i holds the marker record (900+i)/5
            ( w <period> <off> <id> <len> | r <period> <off> | f )*
    output: "<res> <listing>" after the start, after every op and after the final drop, joined by " | ";
-           listing = files sorted by name token: A=<recs> R<p>.<s>=<recs> Z<p>.<s>=<recs>; rec = id/len.
+           listing = files sorted by name token: A=<recs> R<p>.<s>=<recs> Z<p>.<s>=<recs> F<i>=<recs>; rec = id/len.
    `off` (position of the instant inside its period) and the name parts are used by the real driver only. *)
 open Model_roller
 open Conv_roller
@@ -20,7 +22,8 @@ let listing st =
       | Active -> ((0, 0, 0, 0), "A=" ^ show_recs data)
       | Rolled (p, s, z) ->
           let p = int_of_n p and s = int_of_n s in
-          ((1, p, s, (if z then 1 else 0)), (if z then "Z" else "R") ^ string_of_int p ^ "." ^ string_of_int s ^ "=" ^ show_recs data))
+          ((1, p, s, (if z then 1 else 0)), (if z then "Z" else "R") ^ string_of_int p ^ "." ^ string_of_int s ^ "=" ^ show_recs data)
+      | Foreign i -> let i = int_of_n i in ((3, i, 0, 0), "F" ^ string_of_int i ^ "=" ^ show_recs data))
       (dir_of st) in
   String.concat " " (List.map snd (List.sort compare ents))
 
@@ -33,9 +36,11 @@ let rec parse_ops = function
 
 let run (toks : string list) : string =
   match toks with
-  | gran :: ms :: mr :: mu :: _ :: _ :: _ :: p0 :: _ :: rest ->
+  | gran :: ms :: mr :: mu :: _ :: _ :: _ :: p0 :: _ :: fr :: rest ->
+      let fs = if fr = "-" then [] else
+          List.mapi (fun i _ -> (n_of_int i, [ (n_of_int (900 + i), n_of_int 5) ])) (String.split_on_char ',' fr) in
       let pol = { p_never = (gran = "never"); p_max_size = opt ms; p_max_retained = opt mr; p_compression = opt mu } in
-      let st0 = start pol (n p0) in
+      let st0 = start pol fs (n p0) in
       let outs = ref [ "ok " ^ listing st0 ] in
       let st = List.fold_left (fun st o ->
           let st' = step pol st o in
